@@ -1,4 +1,6 @@
 pub mod c01;
+pub mod c02;
+pub mod c03;
 pub mod selftest;
 
 use crate::report::Report;
@@ -7,6 +9,8 @@ use crate::Ctx;
 pub fn dispatch(ctx: &Ctx, rep: &mut Report) -> bool {
     match ctx.prop.as_str() {
         "C01" => c01::run(ctx, rep),
+        "C02" => c02::run(ctx, rep),
+        "C03" => c03::run(ctx, rep),
         _ => return false,
     }
     true
